@@ -17,7 +17,7 @@ class SiteCheck(PropertyCheck):
     which = 'C11'
     models = {'site': 'XSite.v'}
     needs_gen = True
-    gen_modules = ['gen_listings']
+    gen_modules = ['gen_listings', 'gen_c11_code']
     rule = ('generated projects (packages, sub-packages, modules; classes inheriting across modules, overriding methods with and '
             'without docstrings, properties, class/instance variables, constants, nested classes, re-exports through __all__, '
             'duplicate definitions, L{} cross references to random objects incl. hidden ones) x --privacy rule lists generated '
@@ -33,6 +33,12 @@ class SiteCheck(PropertyCheck):
         'css_class and the class_ renderers, moduleSummary incl. the compact threshold, search privacy field, objectsOfType, '
         'nested_bases / class_members / inherited_members, anchor renderers) are RUN on fixture systems built with the real '
         'builder and compared with a reference of what Model/Site.v mirrors',
+        'translator harness/gen/gen_c11_code.py (fail-closed): the bodies of Documentable.fullName / privacyClass / isVisible / '
+        'isPrivate / page_object / url, Module.privacyClass and linker.taglink, statement by statement, into the language of '
+        'Model/SiteIR.v; Proofs/SiteIRProofs.v proves their interpretation equal to Model/Site.v for every registry '
+        '(C11_code_*_is_model, C12_code_*_is_model).  Primitive / assumed there: the registry fields name and parent, '
+        'documentation_location by kind and the attribute dispatch of privacyClass (both checked on the live classes), '
+        'System.privacyClass (input), root_names, quote, str and tag operations, logging has no effect',
         'oracle contract: urllib.parse.quote never emits "#" (proved for the concrete model quote: cquote_no_hash)',
         'extraction ExtrOcamlBasic only + coq/ocaml/driver.ml',
         'harness/c11_check.py, c11_site.py (generator, canonicalisation, oracles), impl/c11_crawl.py + c11_crawler.py '
@@ -217,6 +223,22 @@ class SiteCheck(PropertyCheck):
                                 diff.setdefault('annotation_links', []).append(
                                     {'page': page, 'zone': ref[2], 'href': ref[1],
                                      'why': 'not taglink(o, page_url=this page) of any visible object of the model'})
+                # third leg: the function bodies translated from /repo, interpreted (Model/SiteIR.v), against the real objects
+                if len(m) > 5:
+                    for i, (ob, cv_) in enumerate(zip(reg['objs'], m[5])):
+                        self.count('code_leg_objects')
+                        got_url = txt(cv_[0][1]) if cv_[0][0] == 0 else ('<%d>' % cv_[0][0])
+                        got_vis = bool(cv_[1][1]) if cv_[1][0] == 1 else None
+                        got_prv = bool(cv_[2][1]) if cv_[2][0] == 1 else None
+                        tl = []
+                        for k in (3, 4):
+                            tl.append(txt(cv_[k][1]) if cv_[k][0] == 2 else (None if cv_[k][0] == 3 else '<%d>' % cv_[k][0]))
+                        mtl = [txt(cv_[5][0]) if cv_[5] else None, txt(cv_[6][0]) if cv_[6] else None]
+                        if got_url != ob['url'] or got_vis != ob['visible'] or got_prv != (ob['priv'] != 'PUBLIC') or tl != mtl:
+                            diff = diff or {}
+                            diff['generated_code'] = {'full': ob['full'], 'impl': [ob['url'], ob['visible'], ob['priv'] != 'PUBLIC'],
+                                                      'code': [got_url, got_vis, got_prv], 'taglink_code': tl, 'taglink_model': mtl}
+                            break
                 if diff and len([v for v in out if v.kind == 'correspondence']) < 5:
                     out.append(Violation('correspondence', 'Model.Site and the files pydoctor wrote disagree: '
                                          + json.dumps(diff)[:600], case=compact_case(c), expected='model', observed=diff))
